@@ -627,6 +627,20 @@ def r5_flag(ctx, chk, rule="C01.5"):
                     if rest and all(isinstance(b, ast.Raise) or _is_log(b) for b in rest) and isinstance(rest[-1], ast.Raise) and blk is f.node:
                         chk.ok(rule, f.where(n), "flag `%s` decides only between `return` and the no-solution raise that follows (`if %s: return`; the exact condition is judged by C06.2)" % (flag, src(st.test)))
                         continue
+                    # ... or between `return X` now and "raise or `return X`" later: the same value either way, only the raise depends on it
+                    def _raise_or_same_return(b, ret=st.body[-1]):
+                        if isinstance(b, ast.Raise) or _is_log(b):
+                            return True
+                        if isinstance(b, ast.Return):
+                            return ast.dump(b) == ast.dump(ret)
+                        if isinstance(b, ast.If):
+                            return all(_raise_or_same_return(x) for x in b.body + b.orelse)
+                        return False
+                    if rest and blk is f.node and all(_raise_or_same_return(b) for b in rest) and any(isinstance(x, ast.Raise) for b in rest for x in ast.walk(b)) \
+                            and isinstance(st.body[-1].value, (ast.Name, ast.Constant, type(None))):
+                        chk.ok(rule, f.where(n), "flag `%s` decides only between `return %s` at once and the no-solution test followed by the same `return` (the exact condition is judged by C06.2)"
+                               % (flag, src(st.body[-1].value) if st.body[-1].value is not None else ""))
+                        continue
                 chk.violation(rule, f.where(n), "`%s` depends on the pruning flag: the reported probabilities / strategies are not the same with pruning on and off" % norm_stmt(st),
                               expected="flag only forwarded or guarding the 'no solution' raise", found=norm_stmt(st),
                               construct="%s flag use in `%s`" % (f.short, norm_stmt(st)))
@@ -726,6 +740,10 @@ def run(ctx, chk):
     # observed through the batch driver: run_games()[name]['probabilities'] must be this game's, this mode's value
     from . import C12 as _C12
     _C12.observe(ctx, chk, "C01.obs", ['probabilities'])
+    # the property speaks of every solve: nothing computed by one solve (a memo on the game object, on a class, in a module)
+    # may be handed to the next one - a second solve of the same object, or of another game, would report stale values
+    from . import C10 as _C10
+    _C10.r2_no_carried_state(ctx, chk, "C01.pre:C10.2")
     r1_kernels(ctx, chk)
     r2_start(ctx, chk)
     shared.rule_node_keeps_transitions(ctx, chk, "C01.2")
